@@ -19,6 +19,8 @@ import Proofs.RefactorGraphRo
 import Proofs.RefactorClosure
 import Proofs.RefactorLoop
 import Proofs.RefactorGraphRoFull
+import Proofs.RefactorGraphEmbed
+import Proofs.RefactorGraphFuel
 
 namespace Props.C19
 open Martian.Refactor
@@ -546,5 +548,39 @@ example :
     ∧ (deepGraph exDeepTi exDeep).map (renNodeOut "A" "pt" "pp") ≠ deepGraph exDeepTi exDeep
     ∧ (deepGraph exDeepTi exDeep).map (renNodeOut "Q" "r" "rr") ≠ deepGraph exDeepTi exDeep := by
   decide
+
+/-- **graph_fuel_stable.**  The graph model is fuel-bounded (`graphFuel`).  Whenever the
+resolution WITH EXPLICIT FUEL EXHAUSTION (`deepGraphO`: `none` as soon as a branch
+that is really followed runs out of fuel) succeeds at a budget `n`, the fuelled
+graph equals that result at `n` and at every larger budget: nothing was cut off.
+The driver evaluates `deepGraphO (graphFuel p)` on every program of every run
+(`C19.gfuel`); a `none` there is reported as a violation of the tie. -/
+theorem graph_fuel_stable (ti : TypeInfo) (p : Program) (n : Nat) (g : List Node)
+    (h : deepGraphO n n ti p = some g) (k : Nat) :
+    deepGraphAt (n + k) (n + k) ti p = g :=
+  Proofs.RefactorGraph.deepGraph_stable ti p n n g h k k
+
+/-- in particular `deepGraph` (= the budget `graphFuel`) is the graph at every larger budget -/
+theorem graph_fuel_adequate (ti : TypeInfo) (p : Program) (g : List Node)
+    (h : deepGraphO (graphFuel p) (graphFuel p) ti p = some g) (k : Nat) :
+    deepGraph ti p = g ∧ deepGraphAt (graphFuel p + k) (graphFuel p + k) ti p = deepGraph ti p := by
+  have h0 := Proofs.RefactorGraph.deepGraph_stable ti p _ _ g h 0 0
+  have hk := Proofs.RefactorGraph.deepGraph_stable ti p _ _ g h k k
+  have : deepGraph ti p = deepGraphAt (graphFuel p) (graphFuel p) ti p := rfl
+  simp only [Nat.add_zero] at h0
+  exact ⟨this ▸ h0, by rw [hk, this, h0]⟩
+
+example : (deepGraphO (graphFuel exDeep) (graphFuel exDeep) exDeepTi exDeep).isSome = true
+    ∧ (deepGraphO 2 2 exDeepTi exDeep).isSome = false := by decide
+
+/-- **deepGraphD_embeds_deepGraph.**  On a program without `disabled` modifiers the
+extended model `deepGraphD` (RefactorGraphD.lean: per-node disable lists, `dis`
+wrappers) is exactly the embedding of `deepGraph`: every theorem about `deepGraph`
+is a theorem about `deepGraphD` there. -/
+theorem deepGraphD_embeds_deepGraph (ti : TypeInfo) (p : Program) (h : noDisabledMods p = true) :
+    deepGraphD ti p = (deepGraph ti p).map Node.toD :=
+  Proofs.RefactorGraph.deepGraphD_eq_embed ti p h
+
+example : noDisabledMods exDeep = true ∧ (deepGraphD exDeepTi exDeep).length = 5 := by decide
 
 end Props.C19
